@@ -4,7 +4,7 @@
    build; they are parameters (the theorems quantify over them). *)
 From Coq Require Import ZArith List.
 Import ListNotations.
-From LJT Require Import model.MemMgr model.TjInit gen.GenMemConst.
+From LJT Require Import model.MemMgr model.TjInit model.DestBuf gen.GenMemConst.
 Local Open Scope Z_scope.
 
 Definition gen_cfg (align mgr sctl bctl : Z) : cfg :=
@@ -28,3 +28,11 @@ Definition max_memory_to_use_of (maxMemory : Z) : Z := maxMemory * maxmem_scale.
    objects fit the first pool) *)
 Definition tjinit_src (c : cfg) (ty : itype) (oracle : list bool) : bool * heap :=
   tj3_init_destroy w64 c tjinit_handler_destroys ty (empty_heap oracle) 1000 [64; 88] [64; 200; 48; 56].
+
+(* the destination-buffer protocol with the facts found in the source *)
+Definition policy_of (z : Z) : policy := if z =? 0 then ResetAlways else if z =? 1 then ResetUnlessReused else ResetFirstOnly.
+(* TurboJPEG API: jdatadst-tj.c + the exit paths of tj3Compress*, tj3CompressFromYUVPlanes8, tj3Transform *)
+Definition dcfg_tj : dcfg :=
+  {| pol := policy_of memdest_policy_tj; term_on_throw := tj_term_on_throw; term_on_longjmp := tj_term_on_longjmp |}.
+(* libjpeg API: jdatadst.c; the APPLICATION calls term_destination on its error path (contract, see design/C14.md) *)
+Definition dcfg_ljpeg : dcfg := {| pol := policy_of memdest_policy_ljpeg; term_on_throw := true; term_on_longjmp := true |}.
